@@ -69,6 +69,6 @@ Proof. exact rpc_headers_no_later_than_first_message. Qed.
 Print Assumptions C02_rpc_headers_no_later_than_first_message.
 (* what the client's receive loop is handed for the stream is always a prefix of a conforming server history *)
 Theorem C02_rpc_client_is_handed_conforming_frames : forall strict ls s,
-  rrun strict r_init ls = Some s -> exists d, h_s s = d ++ q_s s /\ gs_run d <> GsBad.
+  rrun strict r_init ls = Some s -> exists d, h_s s = (d ++ q_s s)%list /\ gs_run d <> GsBad.
 Proof. exact rpc_client_is_handed_conforming_frames. Qed.
 Print Assumptions C02_rpc_client_is_handed_conforming_frames.
